@@ -2791,9 +2791,11 @@ impl<'a> CodeGenerator<'a> {
                     (builtins_for_pattern, last_pattern),
                     |(mut builtins_for_pattern, acc), list_item| match list_item {
                         itertools::Position::First(index) | itertools::Position::Only(index) => {
+                            // Tail cases are sorted by length, we want the longest
+                            // one that applies to a list of `index` elements.
                             let (_, tree) = cases
                                 .iter()
-                                .chain(tail_cases.iter())
+                                .chain(tail_cases.iter().rev())
                                 .find(|x| match x.0 {
                                     CaseTest::List(i) => i == index,
                                     CaseTest::ListWithTail(i) => i <= index,
@@ -2833,9 +2835,11 @@ impl<'a> CodeGenerator<'a> {
                         }
 
                         itertools::Position::Middle(index) | itertools::Position::Last(index) => {
+                            // Tail cases are sorted by length, we want the longest
+                            // one that applies to a list of `index` elements.
                             let (_, tree) = cases
                                 .iter()
-                                .chain(tail_cases.iter())
+                                .chain(tail_cases.iter().rev())
                                 .find(|x| match x.0 {
                                     CaseTest::List(i) => i == index,
                                     CaseTest::ListWithTail(i) => i <= index,
